@@ -217,6 +217,9 @@ func (na *plainMap__Assembler) AssignNode(v datamodel.Node) error {
 	if v.Kind() != datamodel.Kind_Map {
 		return datamodel.ErrWrongKind{TypeName: "map", MethodName: "AssignNode", AppropriateKind: datamodel.KindSet_JustMap, ActualKind: v.Kind()}
 	}
+	if _, err := na.BeginMap(v.Length()); err != nil {
+		return err
+	}
 	itr := v.MapIterator()
 	for !itr.Done() {
 		k, v, err := itr.Next()
